@@ -39,8 +39,14 @@ class DefusableReader(BufferedIOBase):
         if initial_buffer_size < DEFAULT_BUFFER_SIZE:
             initial_buffer_size = DEFAULT_BUFFER_SIZE
 
+        # A read on an interactive stream can return less than the requested
+        # bytes: fill the buffer until the initial size or the end of the stream.
         buf = bytearray()
-        buf += fp.read(initial_buffer_size)
+        while len(buf) < initial_buffer_size:
+            chunk = fp.read(initial_buffer_size - len(buf))
+            if not chunk:
+                break
+            buf += chunk
         self._buffer = buf
         self._buffer_size = len(buf)
         self._fp = fp
